@@ -9,6 +9,10 @@ CHECKS = {
    text="Whole-program static lock-order proof: every (site, live guard, acquired class) pair in every body reachable in each executable respects the ranks read from LOCK_ORDER_*, or is serialised by the SAITO gate per the property's escape clause. Held sets (rustc MaybeInitializedPlaces) and acquisitions (all paths, resolved calls/awaits, class hierarchy for dyn, closure/future creation) are over-approximated, so no report means no inversion in any schedule.",
    note="Trusted: rustc type check/MIR/Instance resolution/dataflow, the driver's MIR serialisation, the tokio acquisition-API and spawn tables. Assumes guards are not smuggled through dyn Any/raw pointers/fn pointers and external crates do not call back into workspace code holding workspace locks.",
    technique="static analysis: MIR dataflow (live lock guards) + interprocedural lock-acquisition summaries over the resolved call graph"),
+ "C02": dict(level="other",
+   text="Decides two necessary clauses of the second sentence of C02 on every path: (1) in the bodies reachable from Transaction::generate and Block::generate - which run on wire data before validation - no u64 addition/multiplication/Iterator::sum touches a value derived from Slip.amount or the per-transaction totals unless through checked/saturating/overflowing arithmetic (a wrapped output sum makes total_out <= total_in true for an inflating transaction); (2) every accepting path of Transaction::validate for a non-privileged type passes the non-violating edge of total_out vs total_in. Does not decide conservation across histories (payouts, treasury, graveyard, ATR arithmetic, reorganisations).",
+   note=TRUST,
+   technique="static analysis: field-taint to overflow-capable MIR operations over the call graph + must-pass-through"),
  "C03": dict(level="other",
    text="Decides the lockstep and ownership structure without which the four views (UTXO set, by-height index, per-block flag, wallet) cannot describe the same chain: wind_chain (after an accepting validate) and unwind_chain (on every continuing path) update block ring, UTXO set, wallet and blockchain exactly once each with the same constant direction; a UtxoSet is mutated only by the wind/unwind primitives and two named exceptions, and those primitives are called only along wind/unwind; the longest-chain index and in_longest_chain are written only by the table's bodies. Does not decide exactness of wind/unwind for every fork shape and delivery order (value and history level). One genuine defect (the out-of-order branch of add_block rewrites the index without unwinding the ledger) is a known finding with an executed witness.",
    note=TRUST,
